@@ -101,6 +101,7 @@ type Exec struct {
 	obsNames []string
 	obsTerms []*Node
 	crcSeen  []crcRec
+	idCounter int
 	pending  []pendingAssert
 	inInit   bool
 
